@@ -263,7 +263,25 @@ func (g *progGen) stmt(depth int) {
 		}
 	case k < 30:
 		v := Pick(g.r, g.visible())
-		switch g.r.Intn(3) {
+		switch g.r.Intn(5) {
+		case 3, 4: // a tuple assignment: every target resolves on its own (locals, parameters and the global g in one list, any order)
+			vs := g.visible()
+			for i := len(vs) - 1; i > 0; i-- {
+				j := g.r.Intn(i + 1)
+				vs[i], vs[j] = vs[j], vs[i]
+			}
+			if len(vs) > 3 {
+				vs = vs[:2+g.r.Intn(2)]
+			}
+			if len(vs) < 2 {
+				fmt.Fprintf(&g.sb, "%s = %s\n", v, g.expr())
+				break
+			}
+			var es []string
+			for range vs {
+				es = append(es, g.expr())
+			}
+			fmt.Fprintf(&g.sb, "%s = %s\n", strings.Join(vs, ", "), strings.Join(es, ", "))
 		case 0:
 			fmt.Fprintf(&g.sb, "%s = %s\n", v, g.expr())
 		case 1:
